@@ -95,6 +95,9 @@ type Config struct {
 	MountPerm   int            `json:"mount_perm,omitempty"`
 	MaxBlockGas int64          `json:"max_block_gas,omitempty"`
 	Lazy        bool           `json:"lazy,omitempty"` // rootmulti lazy loading of the IAVL stores
+	// GenHistory: key indices for which the pos genesis carries a signing info and a missed-block
+	// array (the content of an exported state: validators and former validators with history)
+	GenHistory []int `json:"gen_history,omitempty"`
 }
 
 // PosParams are custom pos parameters (nil => module route with the forced defaults).
@@ -317,6 +320,15 @@ func GenesisState(cfg Config) map[string]json.RawMessage {
 	}
 	if len(cfg.Vals) > 0 {
 		pgs.PreviousProposer = Addr(cfg.Vals[0].Key)
+	}
+	for _, k := range cfg.GenHistory {
+		a := Addr(k)
+		if pgs.SigningInfos == nil {
+			pgs.SigningInfos = map[string]posTypes.ValidatorSigningInfo{}
+			pgs.MissedBlocks = map[string][]posTypes.MissedBlock{}
+		}
+		pgs.SigningInfos[a.String()] = posTypes.ValidatorSigningInfo{Address: a, StartHeight: 0, IndexOffset: 1, JailedUntil: time.Unix(0, 0).UTC(), MissedBlocksCounter: 1}
+		pgs.MissedBlocks[a.String()] = []posTypes.MissedBlock{{Index: 0, Missed: true}}
 	}
 
 	// gov
